@@ -530,7 +530,7 @@ Theorem ci_step : forall s gl o, CI s gl -> exists gl', CI (fst (gstep cfg ru s 
 Proof.
   intros s gl o HC.
   assert (Stay : exists gl', CI s gl') by (exists gl; exact HC).
-  destruct o as [i|i|i|i|i p ok|k ok|i]; cbn [gstep].
+  destruct o as [i|i|i|i|i p ok|k ok|i|i ok]; cbn [gstep].
   - (* GElect *)
     unfold valid_id. destruct (N.ltb_spec i (n_nodes cfg)) as [Hi|]; cbn [fst]; [|exact Stay].
     exists gl. eapply (ci_frame s gl (GElect i)); eauto.
@@ -652,6 +652,13 @@ Proof.
     + cbn [gstep]. unfold valid_id. destruct (N.ltb_spec i (n_nodes cfg)); [reflexivity|lia].
     + apply K1_follower; cbn; auto; lia.
     + intros ? ? ? ? ? ? ? ? _ _ _ [].
+  - (* GTimeoutNow *)
+    unfold valid_id. destruct (N.ltb_spec i (n_nodes cfg)) as [Hi|]; cbn [fst]; [|exact Stay].
+    destruct ok; cbn [fst]; [|exact Stay].
+    exists gl. eapply (ci_frame s gl (GTimeoutNow i true)); eauto.
+    + cbn [gstep]. unfold valid_id. destruct (N.ltb_spec i (n_nodes cfg)); [reflexivity|lia].
+    + apply K1_elect.
+    + intros a d t ldr pi pt es lc _ _ _ [].
 Qed.
 
 Lemma init_node_of i : nd_of (init_sys cfg) i = init_node.
